@@ -294,6 +294,7 @@ func (c *concCtx) scenarioLeak(cycles int) {
 // scenarioNewFails: C13 — NewWatcher failing at inotify_init1 (per-user instance limit) leaks nothing.
 func (c *concCtx) scenarioNewFails() {
 	runtime.GC()
+	time.Sleep(20 * time.Millisecond)
 	fd0, g0 := inotifyFds(), fsnotifyGoroutines()
 	var ws []*fsnotify.Watcher
 	failed := 0
@@ -309,6 +310,8 @@ func (c *concCtx) scenarioNewFails() {
 		ws = append(ws, w)
 	}
 	held := len(ws)
+	// (counts are compared after settling: a freshly created reader may not have been scheduled yet)
+	settle(func() bool { return inotifyFds() == fd0+held && fsnotifyGoroutines() == g0+held })
 	if failed > 0 && inotifyFds() != fd0+held {
 		c.report("C13", "C13:failed-new-leaks-fd", fmt.Sprintf("%d failed NewWatcher calls: %d inotify descriptors open for %d live Watchers", failed, inotifyFds()-fd0, held), map[string]interface{}{})
 	}
